@@ -159,8 +159,21 @@ def trait_method(run, f, d, fn, trait, self_ty):
             a = [tr.norm(x) for x in tr.call_args(core[1])]
             src = strip_refs(a[0])
             okc = src[0] == "call" and src[2] == K and strip_refs(tr.norm(tr.call_args(src[1])[0])) == ("param", 1)
+            mapper = a[1]
+            if mapper[0] == "agg" and mapper[1][0] == "closure":
+                cb = f.body(mapper[1][1])
+            elif mapper[0] == "fn":
+                cb = f.body(mapper[1])      # `.map(boxed_handler)`: a named private fn instead of a closure
+                if cb is not None:
+                    ctr = tracer_of(cb)
+                    cret, cdyns = peel(ctr, ctr.norm(ctr.local(0)))
+                    if is_box_new(ctr, cret):
+                        cin = strip_refs(ctr.norm(ctr.call_args(cret[1])[0]))
+                        clos_ok = cin == ("param", 1) and cdyns and all(x == want for x in cdyns) and len(list(live_calls(cb))) == 1
+                cb = None
+            else:
+                cb = None
             if a[1][0] == "agg" and a[1][1][0] == "closure":
-                cb = f.body(a[1][1][1])
                 if cb is not None:
                     ctr = tracer_of(cb)
                     cret, cdyns = peel(ctr, ctr.norm(ctr.local(0)))
@@ -211,6 +224,20 @@ def trait_method(run, f, d, fn, trait, self_ty):
                 continue
             # trait-dispatched identity()/is_alive() on self
             if fn_of(b).get("name") in ("identity", "is_alive") and fn_of(b).get("trait") in SIX | {None}:
+                continue
+            # a crate-private accessor trait / helper whose implementation only reads identity() / is_alive()
+            pure = {"actor_ref::ActorRef::<T>::identity", "actor_ref::ActorRef::<T>::is_alive", "actor_ref::ActorWeak::<T>::identity", "actor_ref::ActorWeak::<T>::is_alive"}
+            cands = []
+            if r and f.body(r) is not None:
+                cands = [f.body(r)]
+            elif fn_of(b).get("trait") in f.traits and fn_of(b).get("krate") == f.crate:
+                # unresolved (generic receiver): every implementation of that crate-local trait method must be pure
+                for im in f.impls:
+                    if im.get("trait") == fn_of(b).get("trait"):
+                        for it in im["items"]:
+                            if it["def"].endswith("::" + (fn_of(b).get("name") or "?")) and f.body(it["def"]) is not None:
+                                cands.append(f.body(it["def"]))
+            if cands and all((lambda inner: inner and all(x in pure for x in inner))([callee(k.term) or "" for k in body_calls(f, rb)]) for rb in cands):
                 continue
             extra.append(c)
         run.require(not extra, "O16.3", "debug_fmt-pure:%s" % key, "%s calls %s" % (key, extra), "debug_fmt only formats identity/is_alive", loc=loc)
